@@ -62,7 +62,6 @@ Section D.
 Variable sigma : oracle.
 Variable i : inst.
 Hypothesis Hnn : inst_nonneg_b i = true.
-Hypothesis Hflex : flex_post_b i = true.
 
 (* ---------- frames of one applied transition ---------- *)
 Lemma machine_tr_mrec_other x tr x' m m' :
@@ -438,7 +437,7 @@ Definition J3 (x : state) : Prop := J i x /\ BO x /\ DUR x.
 Lemma due_fact_step x tr0 R x' tr1 :
   WFS i x -> WFS i x' -> Q (tr0 :: R) x -> apply_transition sigma i x tr0 = Ok x' -> In tr1 R -> due_fact x tr1 -> due_fact x' tr1.
 Proof.
-  intros W W' [ND HP] H Hin Hd m Hc1 Hk. destruct (Hd m Hc1 Hk) as [st [z [l [Hr [Hz Hjob]]]]].
+  intros W W' [ND [HP _]] H Hin Hd m Hc1 Hk. destruct (Hd m Hc1 Hk) as [st [z [l [Hr [Hz Hjob]]]]].
   assert (Hcore1 : In tr1 (core R)).
   { apply in_core; auto. unfold is_tworking. destruct Hk as [-> | ->]; reflexivity. }
   assert (Hn0 : tr_comp tr0 <> CM m).
@@ -472,7 +471,7 @@ Theorem J3_apply x tr R x' :
   J3 x' /\ Q3 R x' /\ side2 tr x' = true.
 Proof.
   intros N [Hj [B D]] [HQ Hdue] Hv Ha.
-  destruct (J_apply sigma i Hnn Hflex _ _ _ _ N Hj HQ Hv Ha) as [Hj' [HQ' S]].
+  destruct (J_apply sigma i Hnn _ _ _ _ N Hj HQ Hv Ha) as [Hj' [HQ' S]].
   destruct (apply_preserves_BD _ _ _ N Hj B D (Hdue tr (or_introl eq_refl)) Hv Ha) as [B' D'].
   split; [split; auto|]. split; [|exact S]. split; [exact HQ'|].
   intros tr1 Hin. destruct Hj as [W _]. destruct Hj' as [W' _]. apply (due_fact_step x tr R x' tr1 W W' HQ Ha Hin). apply Hdue. right; auto.
@@ -480,6 +479,9 @@ Qed.
 
 Lemma J3_now x t : J3 x -> (s_now x <= t)%Z -> J3 (set_now x t).
 Proof. intros [Hj [B D]] H. split; [apply J_now; auto|apply BO_DUR_set_now; auto]. Qed.
+
+Lemma E3_end x : J3 x -> Q3 [] x -> BI x.
+Proof. intros [Hj _] [HQ _]. eapply BI_end; eauto. Qed.
 
 (* ---------- creation ---------- *)
 Lemma timed_machines_in now : forall l m r tr,
@@ -508,7 +510,7 @@ Lemma due_created x timed poss tele :
   J i x -> create_timed_transitions i x = Ok timed -> get_possible_transitions i x = Ok poss ->
   (forall tr, In tr tele -> In tr poss) -> forall tr, In tr (timed ++ tele) -> due_fact x tr.
 Proof.
-  intros [W [_ Dn]] H Hp Hsub tr Hin. apply in_app_iff in Hin. destruct Hin as [Hin|Hin].
+  intros HJ H Hp Hsub tr Hin. pose proof HJ as [W [_ Dn]]. apply in_app_iff in Hin. destruct Hin as [Hin|Hin].
   - unfold create_timed_transitions in H.
     destruct (create_timed_machine_transitions i x) as [a|] eqn:Ea; simpl in H; [|discriminate].
     destruct (create_timed_transport_transitions i x) as [b|] eqn:Eb; simpl in H; [|discriminate].
@@ -520,8 +522,7 @@ Proof.
         eapply (stored_loc i); eauto; [simpl; rewrite Hms; reflexivity|].
         destruct (b_store (m_in ms)); simpl in Hhd; inversion Hhd; left; reflexivity.
       * simpl in Hk. destruct Hk; discriminate.
-    + destruct (timed_transports_comps i x _ _ _ (fun ts Hi => NODEP_in _ _ Dn Hi) Eb) as [B1 _].
-      destruct (B1 _ Hin) as [k [_ [_ [_ [_ [_ [_ [Hc' _]]]]]]]]. intros m Hc. rewrite Hc in Hc'. discriminate.
+    + destruct (timed_transport_comp i x _ _ HJ Eb Hin) as [k Hc']. intros m Hc. rewrite Hc in Hc'. discriminate.
   - apply (OK3_due x). destruct (offers_shape i _ _ _ Hp (Hsub _ Hin)); [left|right]; auto.
 Qed.
 
@@ -532,16 +533,16 @@ Proof.
   inversion H; subst; clear H. apply ProvBatch.teleport_pick_in in Hin. destruct (filterM_in _ _ _ _ Ef Hin). auto.
 Qed.
 
-Lemma Q3_timed x timed poss tele : NO x -> J3 x -> create_timed_transitions i x = Ok timed ->
+Lemma Q3_timed x timed poss tele : NO x -> J3 x -> BI x -> create_timed_transitions i x = Ok timed ->
   get_possible_transitions i x = Ok poss -> filter_teleport i x poss = Ok tele -> Q3 (timed ++ tele) x.
 Proof.
-  intros N [Hj _] H Hp Hf. split; [eapply Q_timed; eauto|]. eapply due_created; eauto. eapply tele_sub; eauto.
+  intros N [Hj _] Hb H Hp Hf. split; [eapply Q_timed; eauto|]. eapply due_created; eauto. eapply tele_sub; eauto.
 Qed.
 
-Lemma Q3_timed0 x timed : NO x -> J3 x -> create_timed_transitions i x = Ok timed -> Q3 timed x.
+Lemma Q3_timed0 x timed : NO x -> J3 x -> BI x -> create_timed_transitions i x = Ok timed -> Q3 timed x.
 Proof.
-  intros N [Hj _] H. split; [eapply Q_timed0; eauto|].
-  intros tr Hin. destruct Hj as [W [Hi Dn]].
+  intros N [HJ _] Hb H. split; [eapply Q_timed0; eauto|].
+  intros tr Hin. pose proof HJ as [W [Hi Dn]].
   unfold create_timed_transitions in H.
   destruct (create_timed_machine_transitions i x) as [a|] eqn:Ea; simpl in H; [|discriminate].
   destruct (create_timed_transport_transitions i x) as [b|] eqn:Eb; simpl in H; [|discriminate].
@@ -553,13 +554,12 @@ Proof.
       eapply (stored_loc i); eauto; [simpl; rewrite Hms; reflexivity|].
       destruct (b_store (m_in ms)); simpl in Hhd; inversion Hhd; left; reflexivity.
     + simpl in Hk. destruct Hk; discriminate.
-  - destruct (timed_transports_comps i x _ _ _ (fun ts Hi => NODEP_in _ _ Dn Hi) Eb) as [B1 _].
-    destruct (B1 _ Hin) as [k [_ [_ [_ [_ [_ [_ [Hc' _]]]]]]]]. intros m Hc. rewrite Hc in Hc'. discriminate.
+  - destruct (timed_transport_comp i x _ _ HJ Eb Hin) as [k Hc']. intros m Hc. rewrite Hc in Hc'. discriminate.
 Qed.
 
-Lemma Q3_offer x o : J3 x -> OK3 x o -> Q3 [o] x.
+Lemma Q3_offer x o : J3 x -> BI x -> create_timed_transitions i x = Ok [] -> OK3 x o -> Q3 [o] x.
 Proof.
-  intros [Hj _] Ho. split; [apply (Q_offer i x o Hj); eapply OK3_not_transit; eauto|].
+  intros [Hj _] Hb Hct Ho. split; [apply (Q_offer i x o Hj Hb Hct); exact Ho|].
   intros tr [<-|[]]. apply OK3_due; auto.
 Qed.
 
@@ -600,20 +600,20 @@ Proof.
 Qed.
 
 (* ---------- every run ---------- *)
-Theorem flex_durations fuel x0 joker0 ta r m :
+Theorem run_durations fuel x0 joker0 ta r m :
   clock_b x0 = true -> wfs_b i x0 = true -> fresh2_b i x0 = true -> nodep_b x0 = true ->
   reach sigma i fuel x0 joker0 ta r m -> durations_b i (r_x r) = true.
 Proof.
   intros C W Fr Dn H. apply NO_iff_clock_b in C.
   assert (Fr1 : fresh_b i x0 = true) by (unfold fresh2_b in Fr; apply andb_true_iff in Fr; destruct Fr as [Fr _]; apply andb_true_iff in Fr; tauto).
   assert (J0 : J3 x0) by (split; [apply J_init; auto|apply fresh_BO_DUR; auto]).
-  destruct (reach_reachG sigma i Hnn J3 Q3 side2 OK3 J3_apply J3_now Q3_timed Q3_timed0 Q3_offer offers_ok3 _ _ _ _ _ _ C J0 H)
+  destruct (reach_reachG sigma i Hnn J3 Q3 side2 OK3 BI J3_apply J3_now E3_end BI_now Q3_timed Q3_timed0 Q3_offer offers_ok3 _ _ _ _ _ _ C J0 (BI_init _ Dn) H)
     as [_ [_ [xq [Nq [[_ [_ Dq]] [E|[_ [z E]]]]]]]]; rewrite E.
   - apply DUR_durations_b; auto.
   - exact (DUR_durations_b _ Dq).
 Qed.
 
-Theorem flex_micro_durations fuel x0 joker0 ta r m a r' m' lg :
+Theorem run_micro_durations fuel x0 joker0 ta r m a r' m' lg :
   clock_b x0 = true -> wfs_b i x0 = true -> fresh2_b i x0 = true -> nodep_b x0 = true ->
   reach sigma i fuel x0 joker0 ta r m -> mw_step sigma i fuel r m a = MOk r' m' lg ->
   forall tr y, In (tr, y) lg -> durations_b i y = true.
@@ -621,7 +621,7 @@ Proof.
   intros C W Fr Dn H Hm tr y Hin. apply NO_iff_clock_b in C.
   assert (Fr1 : fresh_b i x0 = true) by (unfold fresh2_b in Fr; apply andb_true_iff in Fr; destruct Fr as [Fr _]; apply andb_true_iff in Fr; tauto).
   assert (J0 : J3 x0) by (split; [apply J_init; auto|apply fresh_BO_DUR; auto]).
-  destruct (reach_micro_J sigma i Hnn J3 Q3 side2 OK3 J3_apply J3_now Q3_timed Q3_timed0 Q3_offer offers_ok3 _ _ _ _ _ _ _ _ _ _ C J0 H Hm _ _ Hin)
+  destruct (reach_micro_J sigma i Hnn J3 Q3 side2 OK3 BI J3_apply J3_now E3_end BI_now Q3_timed Q3_timed0 Q3_offer offers_ok3 _ _ _ _ _ _ _ _ _ _ C J0 (BI_init _ Dn) H Hm _ _ Hin)
     as [[_ [_ Dy]] _]. apply DUR_durations_b; auto.
 Qed.
 
